@@ -444,7 +444,7 @@ class StreamableHTTPTransport(Transport):
 
             # Handle message events (the actual response)
             if event_type in ["message", "response", None]:
-                if full_data.strip().startswith("{"):
+                if full_data.strip().startswith(("{", "[")):
                     try:
                         response_data = json.loads(full_data.strip())
                         await self._route_response(response_data)
@@ -458,6 +458,12 @@ class StreamableHTTPTransport(Transport):
         """Route response to the appropriate handler."""
         try:
             from chuk_mcp.protocol.messages.json_rpc_message import JSONRPCMessage
+
+            # A JSON array is a batch: route every member on its own
+            if isinstance(response_data, list):
+                for item in response_data:
+                    await self._route_response(item)
+                return
 
             # Create JSON-RPC message
             message = JSONRPCMessage.model_validate(response_data)  # type: ignore[attr-defined]
